@@ -160,8 +160,19 @@ func validateProtocolSequenceNames(env *Environment, errorSink *validation.Error
 
 func validateStreams(env *Environment, errorSink *validation.ErrorSink) *Environment {
 	VisitWithContext(env, nil, func(self VisitorWithContext[Node], node Node, context Node) {
-		switch node.(type) {
+		switch node := node.(type) {
 		case TypeDefinition:
+			self.VisitChildren(node, node)
+		case *ProtocolStep:
+			// only the outermost type of a step can be a stream
+			if gt, ok := node.Type.(*GeneralizedType); ok {
+				if _, isStream := gt.Dimensionality.(*Stream); isStream {
+					for _, typeCase := range gt.Cases {
+						self.Visit(typeCase, node)
+					}
+					return
+				}
+			}
 			self.VisitChildren(node, node)
 		case *Stream:
 			if _, isProtocol := (context).(*ProtocolDefinition); !isProtocol {
